@@ -246,7 +246,6 @@ theorem cycle_spec_ack (s : Sys) (w : Bytes) (h : Inv s) (hc : s.m.connected = t
   · close_step
   · close_step
 
-set_option maxHeartbeats 2000000 in
 theorem cycle_spec_ready (s : Sys) (w : Bytes) (h : Inv s) (hc : s.m.connected = true) (hph : s.t.phase = .ready) :
     Inv (cycle s w).1 ∧ StepSpec s w (cycle s w).1 (cycle s w).2 := by
   obtain ⟨hne, hir, hta, hrr⟩ := h.post hc
@@ -269,15 +268,278 @@ theorem cycle_spec_ready (s : Sys) (w : Bytes) (h : Inv s) (hc : s.m.connected =
   generalize rxStep s.t.rx s.o.ra = Y at hrx hu ⊢
   obtain ⟨u1, u2, u3, u4, u5, u6, u7, u8, u9⟩ := hu
   clear hts h
-  have hup : ∀ c, s.m.cur = some c → unpack s.o.outStr = c := by
-    intro c hc'
-    obtain ⟨e, _, l⟩ := hheld c hc'
-    rw [e, unpack_pack, List.take_of_length_le]
-    have := readMax_le_cap
-    omega
+  have hup : s.m.cur.isSome = true → some (unpack s.o.outStr) = s.m.cur := by
+    cases hcur : s.m.cur with
+    | none => simp
+    | some c =>
+      obtain ⟨e, _, l⟩ := hheld c hcur
+      intro _
+      rw [e, unpack_pack, List.take_of_length_le]
+      have := readMax_le_cap
+      omega
   rcases htx with ⟨a1, a2, a3, a4⟩ | ⟨a1, a2, a3, a4, a5⟩ <;>
   rcases hrx with ⟨b1, b2, b3, b4, b5⟩ | ⟨c, b1, b2, b3, b4, b5⟩ <;>
   rcases u9 with ⟨c', k1, k2, k3, k4, k5⟩ | ⟨k0, k1, k2, k3, k4, k5⟩ | ⟨k0, k1, k2, k3, k4, k5⟩ <;>
   close_step
+
+theorem cycle_spec (s : Sys) (w : Bytes) (h : Inv s) :
+    Inv (cycle s w).1 ∧ StepSpec s w (cycle s w).1 (cycle s w).2 := by
+  cases hc : s.m.connected with
+  | false => exact cycle_spec_pre s w h hc
+  | true =>
+    cases hph : s.t.phase with
+    | idle => exact absurd hph (h.post hc).1
+    | acking => exact cycle_spec_ack s w h hc hph
+    | ready => exact cycle_spec_ready s w h hc hph
+
+theorem init_inv (ta0 rr0 : Bool) (in0 : Bytes) (iw : Nat) (txd : List Nat) (plan : List (Nat × Bytes)) :
+    Inv (init ta0 rr0 in0 iw txd plan) := by
+  constructor <;> simp [init, Out.zero]
+
+/-! ### runs: induction over the cycles -/
+
+/-- a run of the composed system, cycle by cycle, every state satisfying the invariant -/
+inductive Run : Sys → List Bytes → List Obs → Sys → Prop
+  | nil (s : Sys) : Run s [] [] s
+  | cons {s s' s'' : Sys} {w : Bytes} {ob : Obs} {ws : List Bytes} {obs : List Obs} :
+      Inv s' → StepSpec s w s' ob → Run s' ws obs s'' → Run s (w :: ws) (ob :: obs) s''
+
+theorem run_of_inv (s : Sys) (h : Inv s) (ws : List Bytes) : Run s ws (trace s ws) (final s ws) := by
+  induction ws generalizing s with
+  | nil => exact .nil s
+  | cons w ws ih =>
+    have hs := cycle_spec s w h
+    exact .cons hs.1 hs.2 (ih _ hs.1)
+
+/-- the invariant holds after any number of cycles, for any oracles and application writes -/
+theorem inv_final (ta0 rr0 : Bool) (in0 : Bytes) (iw : Nat) (txd : List Nat) (plan : List (Nat × Bytes))
+    (ws : List Bytes) : Inv (final (init ta0 rr0 in0 iw txd plan) ws) := by
+  have : ∀ (ws : List Bytes) (s : Sys), Inv s → Inv (final s ws) := by
+    intro ws
+    induction ws with
+    | nil => exact fun _ h => h
+    | cons w ws ih => exact fun s h => ih _ (cycle_spec s w h).1
+  exact this ws _ (init_inv ..)
+
+variable {s f : Sys} {ws : List Bytes} {obs : List Obs}
+
+theorem run_all (P : Obs → Prop) (hP : ∀ s w s' ob, Inv s' → StepSpec s w s' ob → P ob) (h : Run s ws obs f) :
+    ∀ ob ∈ obs, P ob := by
+  induction h with
+  | nil => simp
+  | cons hi hs _ ih =>
+    intro ob hob
+    rcases List.mem_cons.1 hob with rfl | hob
+    · exact hP _ _ _ _ hi hs
+    · exact ih ob hob
+
+theorem run_conn (h : Run s ws obs f) (hc : s.m.connected = true) : f.m.connected = true := by
+  induction h with
+  | nil => exact hc
+  | cons _ hs _ ih => exact ih (hs.conn_mono hc)
+
+/-- transmit direction: what was read = what was accepted + what is in flight -/
+theorem run_tx (h : Run s ws obs f) : s.m.cur.toList ++ reads obs = accs obs ++ f.m.cur.toList := by
+  induction h with
+  | nil => simp [reads, accs]
+  | @cons s s' s'' w ob ws obs hi hs _ ih =>
+    have e1 := hs.cur'
+    have e2 := hs.acc
+    have e3 := hs.rd_free
+    simp only [reads, accs, List.filterMap_cons] at ih ⊢
+    cases hr : ob.readChunk <;> cases ha : ob.accepted <;> cases hc : s.m.cur <;> simp_all
+
+theorem run_pipe (h : Run s ws obs f) : s.m.outPipe ++ ws.flatten = (reads obs).flatten ++ f.m.outPipe := by
+  induction h with
+  | nil => simp [reads]
+  | @cons s s' s'' w ob ws obs hi hs _ ih =>
+    have e := hs.pipe
+    simp only [reads, List.filterMap_cons, List.flatten_cons] at ih ⊢
+    rw [← List.append_assoc, e, List.append_assoc, ih]
+    cases hr : ob.readChunk <;> simp
+
+theorem run_reads_bounded (h : Run s ws obs f) : ∀ c ∈ reads obs, c ≠ [] ∧ c.length ≤ cap := by
+  induction h with
+  | nil => simp [reads]
+  | @cons s s' s'' w ob ws obs hi hs _ ih =>
+    intro c hc
+    simp only [reads, List.filterMap_cons] at hc ih
+    cases hr : ob.readChunk with
+    | none => rw [hr] at hc; exact ih c hc
+    | some d =>
+      rw [hr] at hc
+      rcases List.mem_cons.1 hc with rfl | hc
+      · exact ⟨(hs.rd_ne _ hr).1, (hs.rd_ne _ hr).2.1⟩
+      · exact ih c hc
+
+theorem run_tr_marks (h : Run s ws obs f) :
+    toggleMarks s.o.tr (obs.map (·.out.tr)) = obs.map (·.readChunk.isSome) := by
+  induction h with
+  | nil => rfl
+  | cons hi hs _ ih =>
+    simp only [List.map_cons, toggleMarks, hs.out_eq, hs.tr_tog]
+    rw [← ih]
+
+theorem run_ra_marks (h : Run s ws obs f) :
+    toggleMarks s.o.ra (obs.map (·.out.ra)) = obs.map (·.announced.isSome) := by
+  induction h with
+  | nil => rfl
+  | cons hi hs _ ih =>
+    simp only [List.map_cons, toggleMarks, hs.out_eq, hs.ra_tog]
+    rw [← ih]
+
+/-- `p` is the chunk pending before the first cycle.  A pending chunk is either accepted by the terminal in
+this cycle (exactly that chunk), or nothing is accepted, nothing is read and it stays pending; nothing is
+accepted when nothing is pending; whatever is pending after the cycle is what out_string holds, and a chunk
+read in this cycle is pending after it. -/
+def HeldOk : Option Bytes → List Obs → Prop
+  | _, [] => True
+  | p, ob :: rest =>
+    (match p with
+     | some c => ob.accepted = some c ∨ (ob.accepted = none ∧ ob.readChunk = none ∧ ob.pending = some c)
+     | none => ob.accepted = none) ∧
+    (∀ c, ob.pending = some c → ob.out.outStr = pack c ∧ unpack ob.out.outStr = c) ∧
+    (∀ c, ob.readChunk = some c → ob.pending = some c) ∧
+    HeldOk ob.pending rest
+
+theorem run_held (h : Run s ws obs f) : HeldOk s.m.cur obs := by
+  induction h with
+  | nil => trivial
+  | @cons s s' s'' w ob ws obs hi hs _ ih =>
+    have e1 := hs.cur'
+    have e2 := hs.acc
+    have e3 := hs.rd_free
+    have e4 := hs.pend_eq
+    have e5 := hs.out_eq
+    have e6 := hi.held
+    refine ⟨?_, ?_, ?_, ?_⟩
+    · cases hr : ob.readChunk <;> cases ha : ob.accepted <;> cases hc : s.m.cur <;> simp_all
+    · intro c hc
+      rw [e4] at hc
+      obtain ⟨k1, _, k3⟩ := e6 c hc
+      rw [e5, k1, unpack_pack, List.take_of_length_le]
+      · exact ⟨rfl, rfl⟩
+      · have := readMax_le_cap
+        omega
+    · intro c hc
+      rw [e4, e1, hc]
+    · rw [e4]; exact ih
+
+theorem run_rx (h : Run s ws obs f) :
+    (obs.map (·.delivered)).flatten =
+      (if !s.m.connected && f.m.connected then [initByte] else []) ++ (anns obs).flatten := by
+  induction h with
+  | nil => simp [anns]
+  | @cons s s' s'' w ob ws obs hi hs hrun ih =>
+    have e1 := hs.deliv
+    have e2 := hs.ia_conn
+    have e3 := hs.ann_conn
+    have e4 := hs.conn_mono
+    have e5 := run_conn hrun
+    simp only [anns, List.filterMap_cons, List.map_cons, List.flatten_cons] at ih ⊢
+    rw [ih, e1]
+    cases hc : s.m.connected <;> cases hc' : s'.m.connected <;> cases hf : s''.m.connected <;>
+      cases ha : ob.announced <;> simp_all
+
+theorem count_isSome {α β : Type} (g : α → Option β) (l : List α) :
+    (l.map fun a => (g a).isSome).count true = (l.filterMap g).length := by
+  induction l with
+  | nil => rfl
+  | cons a l ih => cases h : g a <;> simp [h, ih]
+
+/-! ### the property: any oracle lists, any application writes, any number of cycles -/
+
+section property
+variable (ta0 rr0 : Bool) (in0 : Bytes) (iw : Nat) (txd : List Nat) (plan : List (Nat × Bytes)) (ws : List Bytes)
+
+/-- Transmit direction.  The chunks `update` read from the application pipe are, in order, the chunks the
+terminal accepted, followed by the one still held in `current_transmit` (if any): nothing is lost, duplicated
+or reordered between pipe and terminal.  Those chunks, concatenated, followed by what is still unread in the
+pipe, are exactly the bytes the application wrote; each chunk has 1..22 bytes. -/
+theorem tx_exactly_once_in_order :
+    reads (trace (init ta0 rr0 in0 iw txd plan) ws) =
+      accs (trace (init ta0 rr0 in0 iw txd plan) ws) ++ (final (init ta0 rr0 in0 iw txd plan) ws).m.cur.toList ∧
+    (reads (trace (init ta0 rr0 in0 iw txd plan) ws)).flatten ++ (final (init ta0 rr0 in0 iw txd plan) ws).m.outPipe
+      = ws.flatten ∧
+    (∀ c ∈ reads (trace (init ta0 rr0 in0 iw txd plan) ws), c ≠ [] ∧ c.length ≤ cap) := by
+  have hr := run_of_inv _ (init_inv ta0 rr0 in0 iw txd plan) ws
+  refine ⟨?_, ?_, run_reads_bounded hr⟩
+  · simpa [init] using run_tx hr
+  · simpa [init] using (run_pipe hr).symm
+
+/-- A chunk stays in out_string, unchanged, from the cycle it was read until the cycle the terminal accepts
+it, and the terminal accepts exactly that chunk; nothing is read while a chunk is waiting. -/
+theorem tx_held_until_accepted : HeldOk none (trace (init ta0 rr0 in0 iw txd plan) ws) := by
+  simpa [init] using run_held (run_of_inv _ (init_inv ta0 rr0 in0 iw txd plan) ws)
+
+/-- Receive direction, cycle by cycle: the bytes written to the application pipe are exactly the chunk the
+terminal announced in that cycle (preceded by the init marker in the one cycle the terminal shows init_accept). -/
+theorem rx_each_cycle :
+    ∀ ob ∈ trace (init ta0 rr0 in0 iw txd plan) ws,
+      ob.delivered = (if ob.inp.ia then [initByte] else []) ++ ob.announced.getD [] :=
+  run_all _ (fun _ _ _ _ _ hs => hs.deliv) (run_of_inv _ (init_inv ta0 rr0 in0 iw txd plan) ws)
+
+/-- Receive direction, whole run: after the init marker the application receives exactly the concatenation of
+the announced chunks, each once, in order. -/
+theorem rx_exactly_once_in_order :
+    ((trace (init ta0 rr0 in0 iw txd plan) ws).map (·.delivered)).flatten =
+      (if (final (init ta0 rr0 in0 iw txd plan) ws).m.connected then [initByte] else []) ++
+        (anns (trace (init ta0 rr0 in0 iw txd plan) ws)).flatten := by
+  have h := run_rx (run_of_inv _ (init_inv ta0 rr0 in0 iw txd plan) ws)
+  simp only [show (init ta0 rr0 in0 iw txd plan).m.connected = false from rfl, Bool.not_false, Bool.true_and] at h
+  exact h
+
+/-- transmit_request toggles exactly in the cycles in which a chunk is read from the pipe, receive_accept
+exactly in the cycles in which the terminal announces a chunk -/
+theorem one_toggle_each :
+    toggleMarks false ((trace (init ta0 rr0 in0 iw txd plan) ws).map (·.out.tr)) =
+      (trace (init ta0 rr0 in0 iw txd plan) ws).map (·.readChunk.isSome) ∧
+    toggleMarks false ((trace (init ta0 rr0 in0 iw txd plan) ws).map (·.out.ra)) =
+      (trace (init ta0 rr0 in0 iw txd plan) ws).map (·.announced.isSome) := by
+  have hr := run_of_inv _ (init_inv ta0 rr0 in0 iw txd plan) ws
+  exact ⟨by simpa [init, Out.zero] using run_tr_marks hr, by simpa [init, Out.zero] using run_ra_marks hr⟩
+
+/-- as many toggles of transmit_request as chunks sent, as many toggles of receive_accept as chunks received -/
+theorem one_toggle_each_count :
+    toggles false ((trace (init ta0 rr0 in0 iw txd plan) ws).map (·.out.tr)) =
+      (reads (trace (init ta0 rr0 in0 iw txd plan) ws)).length ∧
+    toggles false ((trace (init ta0 rr0 in0 iw txd plan) ws).map (·.out.ra)) =
+      (anns (trace (init ta0 rr0 in0 iw txd plan) ws)).length := by
+  obtain ⟨h1, h2⟩ := one_toggle_each ta0 rr0 in0 iw txd plan ws
+  unfold toggles reads anns
+  rw [h1, h2]
+  exact ⟨count_isSome _ _, count_isSome _ _⟩
+
+/-- both directions of the same run at once -/
+theorem both_directions :
+    (reads (trace (init ta0 rr0 in0 iw txd plan) ws) =
+      accs (trace (init ta0 rr0 in0 iw txd plan) ws) ++ (final (init ta0 rr0 in0 iw txd plan) ws).m.cur.toList) ∧
+    HeldOk none (trace (init ta0 rr0 in0 iw txd plan) ws) ∧
+    (((trace (init ta0 rr0 in0 iw txd plan) ws).map (·.delivered)).flatten =
+      (if (final (init ta0 rr0 in0 iw txd plan) ws).m.connected then [initByte] else []) ++
+        (anns (trace (init ta0 rr0 in0 iw txd plan) ws)).flatten) ∧
+    toggles false ((trace (init ta0 rr0 in0 iw txd plan) ws).map (·.out.tr)) =
+      (reads (trace (init ta0 rr0 in0 iw txd plan) ws)).length ∧
+    toggles false ((trace (init ta0 rr0 in0 iw txd plan) ws).map (·.out.ra)) =
+      (anns (trace (init ta0 rr0 in0 iw txd plan) ws)).length :=
+  ⟨(tx_exactly_once_in_order ta0 rr0 in0 iw txd plan ws).1, tx_held_until_accepted ta0 rr0 in0 iw txd plan ws,
+   rx_exactly_once_in_order ta0 rr0 in0 iw txd plan ws, one_toggle_each_count ta0 rr0 in0 iw txd plan ws⟩
+
+end property
+
+/-! ### non-vacuity: a run with both directions active, delayed accepts, an empty and a full chunk -/
+
+def exSys : Sys := init true false [] 1 [1, 0] [(0, [1, 2, 3]), (2, []), (0, [9])]
+def exWrites : List Bytes := [[], [], [], (List.range 30).map UInt8.ofNat, [], [], [], [], [40], [], []]
+
+example : accs (trace exSys exWrites) =
+    [(List.range 22).map UInt8.ofNat, (List.range' 22 8).map UInt8.ofNat, [40]] := by decide
+example : reads (trace exSys exWrites) = accs (trace exSys exWrites) ∧ (final exSys exWrites).m.cur = none := by decide
+example : anns (trace exSys exWrites) = [[1, 2, 3], [], [9]] := by decide
+example : ((trace exSys exWrites).map (·.delivered)).flatten = [65, 1, 2, 3, 9] := by decide
+example : toggles false ((trace exSys exWrites).map (·.out.tr)) = 3 ∧
+    toggles false ((trace exSys exWrites).map (·.out.ra)) = 3 := by decide
+example : (trace exSys exWrites).map (·.out.tr) =
+    [false, false, false, true, true, false, false, false, true, true, true] := by decide
 
 end Ebv.C28
